@@ -38,15 +38,15 @@ Next ==
   /\ LET H == Hands[tid]
          ev == H.steps[l + 1]
      IN IF l + 1 <= H.copyAt
-        THEN /\ Force(StepOK(tid, l + 1, CfgOf(H), SA, ev))
+        THEN /\ Force(StepOK(tid, l + 1, CfgOf(H), SA, ev, <<>>, FALSE))
              /\ SA' = NextState(SA, ev)
              /\ SB' = IF l + 1 = H.copyAt THEN NextState(SA, ev) ELSE SB      \* B := deepcopy(A)
         ELSE IF ev.inst = "A"
-        THEN /\ Force(StepOK(tid, l + 1, CfgOf(H), SA, ev))
+        THEN /\ Force(StepOK(tid, l + 1, CfgOf(H), SA, ev, <<>>, FALSE))
              /\ Force(OtherOK(tid, l + 1, ev, SB))
              /\ SA' = NextState(SA, ev)
              /\ SB' = SB
-        ELSE /\ Force(StepOK(tid, l + 1, CfgOf(H), SB, ev))
+        ELSE /\ Force(StepOK(tid, l + 1, CfgOf(H), SB, ev, <<>>, FALSE))
              /\ Force(OtherOK(tid, l + 1, ev, SA))
              /\ Force(~ev.mirror \/ ev.out # "ok" \/ NoLog(ev.post) = NoLog(SA)
                         \/ Report(tid, l + 1, "copy-diverged", ev.op, DiffFields(NoLog(ev.post), NoLog(SA)), {}, <<ev.a>>))
